@@ -15,7 +15,8 @@ def check(ctx):
         "or map/map_err (FromStr/Deserialize); R4 the eleven codec functions contain no Assert terminator and no "
         "panicking callee; R5 SpanContext::new and sampled() are field-wise (what the decoder builds is what was parsed); R6 each field "
         "reaches from_str_radix only past a test of its characters (from_str_radix accepts a leading '+'); R7 no test of a "
-        "parsed value leads to a None result.")
+        "parsed value leads to a None result; R8 the serde impls of TraceId / SpanId write and read text for every "
+        "Serializer / Deserializer (no second wire form behind is_human_readable()).")
     ctx.not_decided = ("the round-trip equation and the exact rejection set over all strings (value level: belongs to "
                        "symbolic or proof tools); behaviour of core's from_str_radix / fmt (trusted).")
     facts = ctx.facts("E")
@@ -25,5 +26,6 @@ def check(ctx):
     codec.rule_no_panic_sites(ctx, facts, "R4")
     codec.rule_sign_rejected(ctx, facts, "R6")
     codec.rule_values_not_tested(ctx, facts, "R7")
+    codec.rule_serde_text_only(ctx, facts, "R8")
     from .. import provrules
     provrules.rule_context_constructors(ctx, facts, "R5")
